@@ -29,14 +29,15 @@ from harness.fgstub import FullSphereStub, make_fullgrid, gen_G, orbits
 from harness import c02
 
 PROPERTY = "C14"
-FUNCTIONS = ["molgri.io.GridWriter.save_volumes/save_borders_array/save_distances_array/save_adjacency_array/save_full_grid",
+FUNCTIONS = ["molgri.molecules.transitions.DecompositionTool.get_decomposition (eigs stubbed)", "molgri.io.GridWriter.save_volumes/save_borders_array/save_distances_array/save_adjacency_array/save_full_grid",
              "molgri.io.GridReader.load_volumes/load_borders_array/load_distances_array/load_adjacency_array",
              "FullGrid.get_full_borders/get_full_distances/get_full_adjacency/get_total_volumes (and everything under C02)",
              "molgri.molecules.transitions.SQRA.get_rate_matrix"]
 STUBS = c02.STUBS + ["scipy.sparse.save_npz/load_npz and np.save/np.load -> identity on (format, index arrays, data) -- checked against real files in the self-test",
                      "exp -> uninterpreted function with positivity and the homomorphism instances named by the harness"]
 ASSUMPTIONS = c02.ASSUMPTIONS + ["energy differences of adjacent cells below the 500 kJ/mol cap for the balance claims"]
-OUTSIDE = ["the spectral sentence: ARPACK eigs, sorting of its output, agreement with a dense eigen-solver (Fortran, iterative, tolerance-based)",
+OUTSIDE = ["the numerical part of the spectral sentence: accuracy of ARPACK's eigenpairs, 'largest is zero', agreement with a dense eigen-solver (Fortran, iterative, "
+           "tolerance-based); the Python glue around it (transpose, descending sort, pairing of vectors with values) IS covered with eigs as a contract stub",
            "Cartesian position mode", "sizes beyond the bound"]
 RT2 = 2 * z3.RealVal(str(__import__("fractions").Fraction(kB * N_A)))
 
@@ -61,6 +62,8 @@ def shapes(tier, seed):
             for bits in itertools.product((False, True), repeat=k):
                 out.append({"n_b": b, "n_o": o, "n_t": t, "pattern": [list(p) for p in pat], "gseed": seed + len(pat), "fixed": {str(i): bool(x) for i, x in enumerate(bits)}})
     out.sort(key=lambda s: s["n_b"] * s["n_o"] * s["n_t"])
+    for k in ((2, 3, 4) if tier == "quick" else (2, 3, 4, 5)):
+        out.insert(0, {"kind": "spectral_glue", "k": k, "n": 3, "n_b": 0, "n_o": 0, "n_t": 0})
     return out
 
 
@@ -90,7 +93,94 @@ class ProxyIO(NPProxy):
         return self.store.d[path].copy()
 
 
+def run_glue(shape):
+    """The Python glue of the spectral sentence with ARPACK as a contract stub: `eigs` returns k ARBITRARY real eigenvalues in an
+    ARBITRARY order, column i of the vector matrix belonging to value i.  Proved for all values: the returned eigenvalues are in
+    descending order, they are a permutation of what the solver returned, and column j of the returned matrix is the vector
+    that belongs to returned value j.  (That ARPACK's pairs are accurate, that the largest is zero, agreement with a dense solver:
+    outside.)"""
+    import molgri.molecules.transitions as T
+    k, n = shape["k"], shape["n"]
+    lam = [z3.Real(f"lam{i}") for i in range(k)]
+    vec = [[z3.Real(f"vec{r}_{i}") for i in range(k)] for r in range(n)]
+    eng = Engine()
+    prover = Prover(timeout_ms=10000, budget_s=300)
+    acc = Acc(shape)
+    eng.assume_global(*[z3.Or(lam[i] < lam[j], lam[j] < lam[i]) for i in range(k) for j in range(i + 1, k)])
+    vals_in = [SR(x) for x in lam]
+    vecs_in = [[SR(x) for x in row] for row in vec]
+
+    class Mat:
+        T = "transposed-matrix"
+
+    def fake_eigs(A, k=6, tol=0, maxiter=None, which="LM", sigma=None, **kw):
+        if A != "transposed-matrix":
+            raise AssertionError("the decomposition must be asked for the TRANSPOSE (left eigenvectors)")
+        return sarr(list(vals_in)), sarr([list(r) for r in vecs_in])
+
+    def body():
+        with bound(T, eigs=fake_eigs, print=noprint):
+            return T.DecompositionTool(Mat()).get_decomposition(tol=1e-5, maxiter=1000, which="LR", sigma=None, k=k)
+
+    for path in eng.explore(body):
+        acc.begin(prover, path)
+        if path.kind == "exc":
+            acc.structural("no_exception", False, detail=repr(path.value) + (path.tb or "")[-600:], cex={"kind": "exception", "exc": type(path.value).__name__, "model": c02._model(path)})
+            continue
+        if acc.reachable is not True:
+            acc.reach(prover.satisfiable(path.premises))
+        ev, evec = path.value
+        m = c02._model(path)
+        ok = tuple(np.shape(ev)) == (k,) and tuple(np.shape(evec)) == (n, k)
+        acc.structural("shapes", ok, detail=(np.shape(ev), np.shape(evec)), cex={"model": m})
+        if not ok:
+            continue
+        claims = [(f"descending[{j}]", z(ev[j]) >= z(ev[j + 1])) for j in range(k - 1)]
+        # which input value is at output position j (decided by the solver under the path's comparisons)
+        for j in range(k):
+            claims.append((f"is_a_returned_value[{j}]", z3.Or([z(ev[j]) == lam[i] for i in range(k)])))
+            for r in range(n):
+                claims.append((f"vector_belongs_to_value[{j},{r}]", z3.And([z3.Implies(z(ev[j]) == lam[i], z(evec[r, j]) == vec[r][i]) for i in range(k)])))
+        claims.append(("permutation", z3.And([z3.Or([z(ev[j]) == lam[i] for j in range(k)]) for i in range(k)])))
+        acc.add(prover.prove_all(path.premises, claims), make_cex=lambda r_: {})
+    return acc.result(eng.stats, prover.stats)
+
+
+def replay_glue(cex):
+    import contextlib, io
+    import molgri.molecules.transitions as T
+    k, n = cex["shape"]["k"], cex["shape"]["n"]
+    model = cex.get("model", {}) or {}
+    rng = np.random.default_rng(1)
+    bad = []
+    trials = [(np.array([fval(model, f"lam{i}", float(i)) for i in range(k)]), np.array([[fval(model, f"vec{r}_{i}", float(10 * r + i)) for i in range(k)] for r in range(n)]))]
+    import itertools as it
+    base = np.arange(k, dtype=float)
+    for perm in it.permutations(range(k)):
+        trials.append((base[list(perm)] * 1.5 - 2.0, np.array([[10.0 * r + perm[i] for i in range(k)] for r in range(n)])))
+    old = T.eigs
+    try:
+        for lam, vec in trials:
+            if len(set(lam.tolist())) < k:
+                continue
+            T.eigs = lambda A, k=6, **kw: (lam.astype(complex), vec.astype(complex))
+            with contextlib.redirect_stdout(io.StringIO()):
+                ev, evec = T.DecompositionTool(np.eye(n)).get_decomposition(tol=1e-5, maxiter=100, which="LR", sigma=None, k=k)
+            if not np.all(np.diff(ev) <= 0):
+                bad.append(f"eigenvalues not descending: {ev.tolist()}")
+            for j in range(k):
+                i = int(np.argmin(np.abs(lam - ev[j])))
+                if not np.allclose(evec[:, j], vec[:, i]):
+                    bad.append(f"solver returned values {lam.tolist()}: column {j} of the result is not the vector of eigenvalue {ev[j]}")
+                    break
+    finally:
+        T.eigs = old
+    return {"reproduced": bool(bad), "detail": str(bad[:2])}
+
+
 def run_shape(shape):
+    if shape.get("kind") == "spectral_glue":
+        return run_glue(shape)
     import molgri.space.fullgrid as F
     import molgri.space.translations as TR
     import molgri.space.voronoi as Vm
@@ -259,6 +349,8 @@ def run_shape(shape):
 
 # ------------------------------------------------------------------------------------------ replay: real files, real scipy
 def replay(cex):
+    if cex["shape"].get("kind") == "spectral_glue":
+        return replay_glue(cex)
     import contextlib, io, shutil
     import molgri.io as IO
     import molgri.molecules.transitions as T
@@ -321,7 +413,7 @@ def replay(cex):
 
 def finding_key(cex):
     s = cex["shape"]
-    return f"C14:{cex['obligation'].split('[')[0].split('#')[0]}:n_b={s['n_b']}"
+    return f"C14:{s.get('kind', 'composed')}:{cex['obligation'].split('[')[0].split('#')[0]}:n_b={s['n_b']}"
 
 
 def selftest(seed):
